@@ -274,10 +274,10 @@ func genC12(cfg Config, ws *WorldSet, i int) C12Case {
 			}
 		case 3, 4:
 			// a run killed inside its final write
-			kind := sim.Pick(r, []string{"crash_mid", "crash_mid", "crash_mid", "crash_after_open", "crash_before_close", "crash_before_open", "commit:crash_before", "commit:crash_after", "sigint", "sigterm"})
+			kind := sim.Pick(r, []string{"crash_mid", "crash_mid", "crash_mid", "crash_after_open", "crash_before_close", "crash_before_open", "commit:crash_before", "commit:crash_after", "sigint", "sigterm", "load:sigterm", "entry:sigint"})
 			iv := mkInv()
 			iv.Dry = false
-			steps = append(steps, crashStep(r, iv, kind, pickK(r, L), sim.Pick(r, []string{"as-written", "as-written", "zero-filled-tail", "cut-to-4096", "write-lost"})))
+			steps = append(steps, crashStep(r, iv, kind, pickK(r, L), sim.Pick(r, []string{"as-written", "as-written", "zero-filled-tail", "cut-to-4096", "write-lost"}), setup))
 		case 5:
 			if r.Chance(1, 5) {
 				steps = append(steps, Step{Op: "chmod", Path: outPath, K: sim.Pick(r, []int{0o444, 0o600, 0o755, 0o200}), Note: "mode-changed"})
@@ -310,8 +310,20 @@ func genC12(cfg Config, ws *WorldSet, i int) C12Case {
 // crashStep builds a run that is killed at one point of its final write: inside
 // whatever opens the output (or a temporary sibling) for writing, or around
 // whatever moves a file onto the output path.
-func crashStep(r *sim.Rng, iv *Invocation, kind string, k int, durability string) Step {
+func crashStep(r *sim.Rng, iv *Invocation, kind string, k int, durability string, setup string) Step {
 	f := sim.Fault{Op: "OUTPUT-OPEN", Path: iv.OutPath, Kind: kind, K: k}
+	if strings.HasPrefix(kind, "load:") || strings.HasPrefix(kind, "entry:") {
+		// interrupted long before the write: on entry (the first look at the setup
+		// file) or while the package is being loaded (the loader's callback looks at
+		// it again). With the default disposition no deferred function runs; whatever
+		// the run had set up by then stays behind
+		nth := 2
+		if strings.HasPrefix(kind, "entry:") {
+			nth = 1
+		}
+		f = sim.Fault{Op: "Stat", Path: setup, Nth: nth, Kind: kind[strings.Index(kind, ":")+1:]}
+		durability = "as-written"
+	}
 	if strings.HasPrefix(kind, "commit:") {
 		f = sim.Fault{Op: "OUTPUT-COMMIT", Path: iv.OutPath, Kind: strings.TrimPrefix(kind, "commit:")}
 		durability = "as-written"
@@ -326,7 +338,7 @@ func crashStep(r *sim.Rng, iv *Invocation, kind string, k int, durability string
 	return Step{Op: "crashrun", Inv: iv, Bin: "sim", Plan: &sim.Plan{Markers: genMarkers(r, 4), Faults: []sim.Fault{f}}, Note: durability}
 }
 
-var c12CrashKinds = []string{"crash_before_open", "crash_after_open", "crash_mid", "crash_before_close", "commit:crash_before", "commit:crash_after", "sigint"}
+var c12CrashKinds = []string{"crash_before_open", "crash_after_open", "crash_mid", "crash_before_close", "commit:crash_before", "commit:crash_after", "sigint", "load:sigterm"}
 
 // genC12Recovery: the crash-recovery templates, systematically for every crash
 // kind: [crash, run] and [edit to a longer setup, crash, edit back to the shorter
@@ -350,7 +362,7 @@ func genC12Recovery(cfg Config, ws *WorldSet, wi, t int) C12Case {
 		}
 	}
 	ivc := iv
-	steps = append(steps, crashStep(r, &ivc, kind, k, "as-written"))
+	steps = append(steps, crashStep(r, &ivc, kind, k, "as-written", setup))
 	if shrink {
 		steps = append(steps, Step{Op: "edit", Path: setup, Data: []byte(world.Files[world.Setup]), Note: "variant 0 (shorter)"})
 	}
